@@ -140,6 +140,18 @@ Definition download_gen (trunc : bool) (size : N) (expected partial : bytes) (le
 Definition download := download_gen true.               (* the code as it is (since commit adc145b) *)
 Definition download_before_fix := download_gen false.   (* the code before the repair: historical counterexample only *)
 
+(* Two calls on one Store with the download cache ON (CacheManager, store/cache.go), same DownloadInfo, different target
+   paths. A successful call ends with cacher.Put(sha3, target) (hard link into the cache under the digest as key); the
+   next call starts with cacher.Get(sha3, target2): a hard link of the cached file to the new target and `return nil`
+   -- NO request, the second .partial is not even opened, and the cached file is NOT hashed again. *)
+Definition download_twice (size : N) (expected p1 : bytes) (l1 : bool) (attempts : nat) (s1 : list beh)
+  (p2 : option bytes) (l2 : bool) (s2 : list beh) : outcome * outcome :=
+  let o1 := download size expected p1 l1 attempts s1 in
+  match o_err o1 with
+  | ENone => (o1, {| o_err := ENone; o_target := o_target o1; o_partial := p2 |})
+  | _ => (o1, download size expected (match p2 with Some p => p | None => [] end) l2 attempts s2)
+  end.
+
 (* Guard of the conditional theorem: a response never carries more than [sz] bytes (the declared size), and the
    status 206 is only sent when the requested range is really honoured. *)
 Definition beh_within (sz : nat) (b : beh) : bool :=
@@ -152,7 +164,11 @@ Definition beh_within (sz : nat) (b : beh) : bool :=
 
 Inductive case :=
 | Case (size : N) (expected : bytes) (partial : option bytes) (leave : bool) (attempts : nat) (script : list beh)
-       (obs_err : derr) (obs_target : option bytes) (obs_partial_present : bool).
+       (obs_err : derr) (obs_target : option bytes) (obs_partial_present : bool)
+| CaseCached (size : N) (expected : bytes) (partial : option bytes) (leave : bool) (attempts : nat) (script : list beh)
+       (partial2 : option bytes) (leave2 : bool) (script2 : list beh)
+       (obs_err : derr) (obs_target : option bytes) (obs_partial_present : bool)
+       (obs_err2 : derr) (obs_target2 : option bytes) (obs_partial_present2 : bool).
 
 Definition opt_beq (a b : option bytes) : bool :=
   match a, b with
@@ -168,6 +184,11 @@ Definition mismatch (c : case) : bool :=
   | Case size expected partial leave attempts script oe ot op =>
       let o := download size expected (match partial with Some p => p | None => [] end) leave attempts script in
       negb (derr_eqb (o_err o) oe && opt_beq (o_target o) ot && Bool.eqb (is_some (o_partial o)) op)
+  | CaseCached size expected partial leave attempts script partial2 leave2 script2 oe ot op oe2 ot2 op2 =>
+      let (o, o2) := download_twice size expected (match partial with Some p => p | None => [] end) leave attempts script
+                       partial2 leave2 script2 in
+      negb (derr_eqb (o_err o) oe && opt_beq (o_target o) ot && Bool.eqb (is_some (o_partial o)) op &&
+            derr_eqb (o_err o2) oe2 && opt_beq (o_target o2) ot2 && Bool.eqb (is_some (o_partial o2)) op2)
   end.
 
 (* the property's conclusion on the implementation's observed behaviour (does not use the model):
@@ -179,4 +200,8 @@ Definition monitor_fail (c : case) : bool :=
       | ENone => negb (opt_beq ot (Some expected))
       | _ => is_some ot
       end
+  | CaseCached size expected partial leave attempts script partial2 leave2 script2 oe ot op oe2 ot2 op2 =>
+      (* the same for both calls: also a target produced from the cache has the expected digest *)
+      match oe with ENone => negb (opt_beq ot (Some expected)) | _ => is_some ot end ||
+      match oe2 with ENone => negb (opt_beq ot2 (Some expected)) | _ => is_some ot2 end
   end.
